@@ -465,17 +465,27 @@ pub fn gen_c16(rng: &mut Rng, tier: Tier) -> Case {
         };
         steps.push(CursorStep { cur, op });
     }
-    Case::Cursor(CursorCase { spec, env: gen::gen_env(rng, true), steps, fresh_each: false, v1: false, sparse_hole: None })
+    let mut env = gen::gen_env(rng, true);
+    if rng.chance(1, 5) {
+        // a failing operation is still one operation: its I/O is bounded like any other
+        env.faults = vec![crate::env::FaultSpec { k: rng.log_uniform(8, 4000), err: rng.below(9) as u8, sticky: false }];
+    }
+    Case::Cursor(CursorCase { spec, env, steps, fresh_each: false, v1: false, sparse_hole: None })
 }
 
 pub fn check_c16(case: &Case, st: &mut Stats) -> Verdict {
     let Case::Cursor(c) = case else { return viol("C16", "harness", "wrong case kind".into()) };
     let mut opts = RunOpts::default();
     opts.keep_io = true;
+    opts.continue_after_err = !c.env.faults.is_empty();
     let r = run_case(case, &c.env, &opts);
     st.absorb_env(&r);
     if let Some(e) = &r.setup_err {
         return viol("C16", "setup", e.clone());
+    }
+    let fired = r.env.fired();
+    if !fired.is_empty() {
+        st.c.inc("fired.transient_source_fault_inside_history");
     }
     let file = &r.files[0];
     let d = match decode::decode(file, None) {
@@ -487,8 +497,12 @@ pub fn check_c16(case: &Case, st: &mut Stats) -> Verdict {
     let flen = file.len() as u64;
     let tl = d.trailer_len as u64;
     for (i, rec) in r.recs.iter().enumerate() {
-        if rec.res.is_panic() || rec.res.is_err() {
+        let injected = rec.res.is_err() && fired.iter().any(|f| rec.clock_before < f.k && f.k <= rec.clock_after);
+        if rec.res.is_panic() || (rec.res.is_err() && !injected) {
             return viol("C16", &format!("err.{}", rec.op), format!("call #{} {} -> {}", i, rec.op, rec.res.short()));
+        }
+        if injected && i < 2 {
+            return None; // the open failed: nothing to measure
         }
         let evs = &r.io[i];
         match rec.op.as_str() {
